@@ -70,8 +70,8 @@ class TComp(fm.TimeComponent):
 
     def _initialize(self):
         self.calls.append("I")
-        for i, _ in enumerate(self.spec["inputs"]):
-            self.inputs.add(name=f"i{i}", time=self.time, grid=fm.NoGrid(), units=None)
+        for i, ispec in enumerate(self.spec["inputs"]):
+            self.inputs.add(name=f"i{i}", time=self.time, grid=fm.NoGrid(), units=None, **ispec.get("meta", {}))
         for o in range(self.spec["nout"]):
             self.outputs.add(name=f"o{o}", time=self.time, grid=fm.NoGrid(), units="")
         for o in range(self.spec["nout"], self.spec["nout"] + self.spec.get("nstatic", 0)):
@@ -87,7 +87,12 @@ class TComp(fm.TimeComponent):
     def _connect(self, start_time):
         self.calls.append("C")
         nall = self.spec["nout"] + self.spec.get("nstatic", 0)
-        self.try_connect(start_time, push_data={f"o{o}": self.value() + 0.0 * o for o in range(nall)})
+        push = {f"o{o}": self.value() + 0.0 * o for o in range(nall)}
+        if self.spec.get("pap") and self.spec.get("initpull"):
+            # "publish after pull": the initial data is provided only once every initial pull succeeded
+            if not all(v is not None for v in self.connector.in_data.values()):
+                push = {}
+        self.try_connect(start_time, push_data=push)
 
     def _validate(self):
         self.calls.append("V")
@@ -96,6 +101,9 @@ class TComp(fm.TimeComponent):
         self.calls.append("U")
         self._time = self._time + self._step()
         self.cnt += 1
+        if self.spec.get("finish_after") is not None and self.cnt >= self.spec["finish_after"]:
+            # a component may declare itself finished with its last value
+            self.status = fm.ComponentStatus.FINISHED
         self.events.append(["U", self.idx, us_of(self.time)])
         for i, _ in enumerate(self.spec["inputs"]):
             self.events.append(["P", self.idx, i, us_of(self.time)])
@@ -241,6 +249,7 @@ def run_case(case, connect_only=False):
     composition, comps, events, adapters, fin_count, t0, n_shared = build(case)
     outcome = "ok"
     phase = "connect"
+    stuck = []
     try:
         composition.connect(T(t0) if any(c["kind"] == "T" for c in case["comps"]) else None)
         n_connect_events = len(events)
@@ -253,6 +262,31 @@ def run_case(case, connect_only=False):
     except Exception as e:  # noqa
         outcome = err_class(e)
         n_connect_events = len(events) if phase == "connect" else n_connect_events
+        if phase == "connect" and outcome == "CircularCoupling":
+            import re as _re
+            m = _re.search(r"Unconnected components: \[(.*?)\]", str(e))
+            stuck = [int(x.strip()[1:]) for x in m.group(1).split(",") if x.strip()] if m else None
+    def _meta(info):
+        try:
+            return sorted((k, str(v)) for k, v in info.meta.items())
+        except Exception as e:  # noqa
+            return ["<" + type(e).__name__ + ">"]
+
+    infos = []
+    for c in comps:
+        ci = []
+        for i, _ in enumerate(c.spec["inputs"]):
+            try:
+                ci.append(_meta(c.inputs[f"i{i}"].info))
+            except Exception as e:  # noqa
+                ci.append(["<" + type(e).__name__ + ">"])
+        co = []
+        for name in c.outputs:
+            try:
+                co.append(_meta(c.outputs[name].info))
+            except Exception as e:  # noqa
+                co.append(["<" + type(e).__name__ + ">"])
+        infos.append([ci, co])
     times = [us_of(c.time) if isinstance(c, TComp) else None for c in comps]
     status = [c.status.name for c in comps]
     return {
@@ -268,4 +302,6 @@ def run_case(case, connect_only=False):
         "received": [c.received if isinstance(c, TComp) else None for c in comps],
         "init_times": [[idx, i, k, us_of(ad.initial_time)] for idx, i, k, ad in adapters if hasattr(ad, "initial_time")],
         "t0": t0,
+        "stuck": stuck,
+        "infos": infos,
     }
